@@ -13,6 +13,8 @@ PROP_MODULES = {
     "C04": ["contracts.c04", "contracts.c05"],
     "C05": ["contracts.c05"],
     "C13": ["contracts.c13"],
+    "C14": ["contracts.c14", "contracts.c14_bounded", "contracts.c08"],
+    "C08": ["contracts.c08"],
 }
 
 
@@ -74,6 +76,8 @@ def run_property(prop, tier="quick", seed=0, only=None, verbose=False):
     # ---- verdicts
     kf = load_known_findings()
     violations, known_hits, undecided = [], [], list(outside)
+    import shutil
+    shutil.rmtree(os.path.join(VERIF, "replays", prop), ignore_errors=True)
     os.makedirs(os.path.join(VERIF, "replays", prop), exist_ok=True)
     for rec in records:
         st = rec.result["status"]
@@ -180,7 +184,8 @@ def run_property(prop, tier="quick", seed=0, only=None, verbose=False):
             "known_findings_hit": [f["what"] for f, _ in known_hits],
             "bounded": bounded_out,
             "inventory": inv_out,
-            "samples": [{"id": r.id, "goal": str(z3.simplify(z3.Not(r.query[-1])))[:400]} for r in records[:6]],
+            "samples": [{"id": r.id, "goal": str(z3.simplify(z3.Not(r.query[-1])))[:400]} for r in [x for x in records if x.query][:6]],
+            "discharged_by_solver": len([r for r in proved if r.query]), "discharged_by_evaluation": len([r for r in proved if not r.query]),
             "trusted_base": sorted(set(TRUSTED_COMMON + [a for c in contracts for a in getattr(c, "assumed", [])] + [a for l in lemmas for a in getattr(l, "assumed", [])])),
             "explanation": EXPLANATION,
             "evaluations": sum(b.get("evaluations", 0) for b in bounded_out) + len(records),
@@ -198,7 +203,7 @@ def run_property(prop, tier="quick", seed=0, only=None, verbose=False):
     return rc
 
 
-LEVELS = {"C04": "proof", "C13": "proof"}
+LEVELS = {"C04": "proof", "C13": "proof", "C14": "proof"}
 TRUSTED_COMMON = [
     "pyvc symbolic executor: encoding of CPython semantics for the subset in DESIGN.md 2.3 (integers mathematical, strings = z3 sequences of code points)",
     "z3 5.1.0 soundness (cvc5 1.0.3 / z3 4.8.12 only as fall-back on unknown)",
